@@ -366,19 +366,18 @@ fn create_network(
         &vehicle_type_lookup,
     );
 
-    let number_of_service_trips: VehicleCount = service_trips
-        .values()
-        .map(|trips| trips.len() as VehicleCount)
-        .sum();
+    let maintenance_slots = create_maintenance_slots(json_input, &locations, &location_lookup);
+
+    // default depots are unlimited: they can host every vehicle a schedule can need
+    let vehicle_upper_limit =
+        Network::vehicle_upper_bound(&service_trips, &maintenance_slots, &vehicle_types);
     let depots = create_depots(
         json_input,
         &locations,
         &location_lookup,
         &vehicle_type_lookup,
-        number_of_service_trips,
+        vehicle_upper_limit,
     );
-
-    let maintenance_slots = create_maintenance_slots(json_input, &locations, &location_lookup);
 
     Network::new(
         depots,
